@@ -140,6 +140,9 @@ type c15Replay struct {
 	r     *mc.Run
 	cases []rtr.Case
 	raws  [][]byte
+	all   []int // indices of all cases
+	light []int // per egress-link kind x ingress kind: one representative
+	reuse bool  // sibling links on their own connected sockets (connectedLink) instead of sharing the internal one (detachedLink)
 	mu    sync.Mutex
 	stat  map[string]int64
 }
@@ -161,6 +164,7 @@ func (cr *c15Replay) replay(t *testing.T, hist []c15Ev) (canon string, viol *mc.
 	}
 	synctest.Test(t, func(t *testing.T) {
 		cfg := c15Cfg()
+		cfg.ReuseLocal = cr.reuse
 		rt, err := rtr.Build(cfg)
 		if err != nil {
 			fail("harness:build", err.Error())
@@ -188,11 +192,6 @@ func (cr *c15Replay) replay(t *testing.T, hist []c15Ev) (canon string, viol *mc.
 			for k, v := range up {
 				upHist[k] = append(upHist[k], v)
 			}
-			if !last {
-				// the state after this prefix was probed when the prefix itself was replayed (BFS replays every prefix of
-				// every history it explores); here only the up/down history is recorded
-				return
-			}
 			resumed := func(k string) bool { // ... up, not up, ..., up (now)
 				h := upHist[k]
 				seenUp, seenDownAfter := false, false
@@ -205,7 +204,14 @@ func (cr *c15Replay) replay(t *testing.T, hist []c15Ev) (canon string, viol *mc.
 				}
 				return seenDownAfter && h[len(h)-1]
 			}
-			for i := range cr.cases {
+			// After the last event every valid packet is judged. After the earlier events (whose states were fully probed
+			// when that prefix was replayed) a representative subset is processed and judged, so that anything the router
+			// or the link remembers from packets handled in an earlier session state still shows.
+			idx := cr.all
+			if !last {
+				idx = cr.light
+			}
+			for _, i := range idx {
 				c := &cr.cases[i]
 				res := rt.Process(cr.raws[i], c.In)
 				local["evaluations"]++
@@ -231,7 +237,7 @@ func (cr *c15Replay) replay(t *testing.T, hist []c15Ev) (canon string, viol *mc.
 				forwarded := res.Fast.Disp == router.VerifForward
 				det := func(want string) map[string]any {
 					return map[string]any{"after": step, "case": c.Name, "egress_link": kind, "session_up": usable,
-						"got": fmt.Sprintf("%s egress=%d sp=%d/%d", dispName(res.Fast.Disp), res.Fast.Egress, res.Fast.SPType, res.Fast.SPCode),
+						"got":  fmt.Sprintf("%s egress=%d sp=%d/%d", dispName(res.Fast.Disp), res.Fast.Egress, res.Fast.SPType, res.Fast.SPCode),
 						"want": want, "packet": fmt.Sprintf("%x", cr.raws[i]), "ingress": fmt.Sprint(c.In)}
 				}
 				if usable {
@@ -344,7 +350,7 @@ func (cr *c15Replay) replay(t *testing.T, hist []c15Ev) (canon string, viol *mc.
 func TestC15(t *testing.T) {
 	r := mc.NewRun(t, "C15", mc.ModelChecking)
 	depth := mc.Pick(4, 6)
-	r.Rule = fmt.Sprintf("explicit-state BFS (depth %d) over histories of events on one router with four link kinds (external+BFD, sibling+BFD, "+
+	r.Rule = fmt.Sprintf("explicit-state BFS (depth %d) over histories of events on one router (sibling links as detached and as connected links) with four link kinds (external+BFD, sibling+BFD, "+
 		"external without BFD, sibling without BFD): a BFD control packet {AdminDown, Down, Init, Up} x YourDiscriminator {0, session's} "+
 		"pushed through the router's own BFD path on the external or the sibling link, a BFD packet on a link without session, or a detection "+
 		"time-out (700 ms of virtual time without packets); state = (local state, up, remote discriminator learned) of both real sessions; after "+
@@ -358,49 +364,69 @@ func TestC15(t *testing.T) {
 		raw, _ := cr.cases[i].Pkt.Serialize()
 		cr.raws = append(cr.raws, raw)
 	}
+	seenCls := map[string]bool{}
+	for i := range cr.cases {
+		c := &cr.cases[i]
+		cr.all = append(cr.all, i)
+		cls := fmt.Sprintf("in%d/x%v/", c.In.Kind, c.Xover)
+		if c.Deliver {
+			cls += "deliver"
+		} else {
+			f := cfg.If(c.EgressIf)
+			cls += fmt.Sprintf("owner%d/bfd%v", f.Owner, f.BFD)
+		}
+		if !seenCls[cls] {
+			seenCls[cls] = true
+			cr.light = append(cr.light, i)
+		}
+	}
 	events := c15Events()
-	st := mc.BFS(mc.Space[c15Ev]{
-		Replay:     func(h []c15Ev) (string, *mc.Viol) { return cr.replay(t, h) },
-		Events:     func([]c15Ev) []c15Ev { return events },
-		MaxDepth:   depth,
-		CheckMerge: mc.Thorough(), // each replay builds a fresh data plane (expensive): quick explores without the merge cross-check
-		Workers:    runtime.GOMAXPROCS(0),
-		Stop:       r.OutOfBudget,
-	})
-	for i, v := range st.Violations {
-		if strings.HasPrefix(v.V.Key, "harness:") {
-			r.HarnessError("%s: %v (history %v)", v.V.Key, v.V.Detail, v.Hist)
-			st.Violations[i].V.Key = "harness-error"
-		}
-	}
-	var keep []mc.FoundViol
-	for _, v := range st.Violations {
-		if v.V.Key != "harness-error" {
-			keep = append(keep, v)
-		}
-	}
-	st.Violations = keep
-	r.Report(st)
-	// scripted down/up cycles (BFS does not extend a history that returns to a known state, so "forwarding resumes" is
-	// additionally exercised on explicit traces)
 	nScen := int64(0)
-	for _, l := range []string{"ext", "sib"} {
-		ev := func(st uint8, mine bool) c15Ev { return c15Ev{Kind: "bfd", Link: l, State: st, Mine: mine} }
-		to := c15Ev{Kind: "timeout"}
-		for _, h := range [][]c15Ev{
-			{ev(2, true), to, ev(2, true)},
-			{ev(1, false), ev(3, true), ev(1, true), ev(2, true)},
-			{ev(1, false), ev(2, true), to, ev(1, false), ev(3, true)},
-			{ev(2, true), ev(0, true), ev(2, true), ev(1, false), ev(2, true)},
-			{ev(1, false), ev(3, true), to, to, ev(1, true), ev(3, true), ev(3, true)},
-		} {
-			for n := 1; n <= len(h); n++ { // every prefix, so that each intermediate state is probed too
-				nScen++
-				if _, v := cr.replay(t, h[:n]); v != nil {
-					if strings.HasPrefix(v.Key, "harness:") {
-						r.HarnessError("%s: %v (scenario %v)", v.Key, v.Detail, h[:n])
-					} else {
-						r.Violation(v.Key, map[string]any{"history": fmt.Sprint(h[:n]), "detail": v.Detail})
+	var st mc.SpaceStats
+	for _, reuse := range []bool{false, true} {
+		cr.reuse = reuse
+		st = mc.BFS(mc.Space[c15Ev]{
+			Replay:     func(h []c15Ev) (string, *mc.Viol) { return cr.replay(t, h) },
+			Events:     func([]c15Ev) []c15Ev { return events },
+			MaxDepth:   depth,
+			CheckMerge: mc.Thorough(), // each replay builds a fresh data plane (expensive): quick explores without the merge cross-check
+			Workers:    runtime.GOMAXPROCS(0),
+			Stop:       r.OutOfBudget,
+		})
+		for i, v := range st.Violations {
+			if strings.HasPrefix(v.V.Key, "harness:") {
+				r.HarnessError("%s: %v (history %v)", v.V.Key, v.V.Detail, v.Hist)
+				st.Violations[i].V.Key = "harness-error"
+			}
+		}
+		var keep []mc.FoundViol
+		for _, v := range st.Violations {
+			if v.V.Key != "harness-error" {
+				keep = append(keep, v)
+			}
+		}
+		st.Violations = keep
+		r.Report(st)
+		// scripted down/up cycles (BFS does not extend a history that returns to a known state, so "forwarding resumes" is
+		// additionally exercised on explicit traces)
+		for _, l := range []string{"ext", "sib"} {
+			ev := func(st uint8, mine bool) c15Ev { return c15Ev{Kind: "bfd", Link: l, State: st, Mine: mine} }
+			to := c15Ev{Kind: "timeout"}
+			for _, h := range [][]c15Ev{
+				{ev(2, true), to, ev(2, true)},
+				{ev(1, false), ev(3, true), ev(1, true), ev(2, true)},
+				{ev(1, false), ev(2, true), to, ev(1, false), ev(3, true)},
+				{ev(2, true), ev(0, true), ev(2, true), ev(1, false), ev(2, true)},
+				{ev(1, false), ev(3, true), to, to, ev(1, true), ev(3, true), ev(3, true)},
+			} {
+				for n := 1; n <= len(h); n++ { // every prefix, so that each intermediate state is probed too
+					nScen++
+					if _, v := cr.replay(t, h[:n]); v != nil {
+						if strings.HasPrefix(v.Key, "harness:") {
+							r.HarnessError("%s: %v (scenario %v)", v.Key, v.Detail, h[:n])
+						} else {
+							r.Violation(v.Key, map[string]any{"history": fmt.Sprint(h[:n]), "detail": v.Detail})
+						}
 					}
 				}
 			}
@@ -418,6 +444,7 @@ func TestC15(t *testing.T) {
 	r.Extra["depth_completed"] = st.Depth
 	r.Extra["events"] = len(events)
 	r.Extra["packets_per_state"] = len(cr.cases)
+	r.Extra["packets_after_intermediate_events"] = len(cr.light)
 	r.Extra["merge_checks"] = st.MergeChecks
 	r.Extra["merge_check_enabled"] = mc.Thorough()
 	r.Sample(map[string]any{"bfd_event_packet_ext_up": fmt.Sprintf("%x", func() []byte {
